@@ -85,8 +85,30 @@ type QueryDef struct {
 	Limit     int
 	NumSlots  int
 	AllFields bool
+	Having    *HavingDef // only with exactly one bare select item
 
 	ftypes map[string]field.Type // field name -> type (for the canonicalisation of order-by answers)
+}
+
+// HavingDef is `having <field> <op> <thr/8>`; Op 1 >, 2 >=, 3 <, 4 <=; Thr in eighths.
+type HavingDef struct {
+	Field string
+	Op    int
+	Thr   int64
+}
+
+func (h *HavingDef) holds(scaled float64) bool {
+	t := float64(h.Thr)
+	switch h.Op {
+	case 1:
+		return scaled > t
+	case 2:
+		return scaled >= t
+	case 3:
+		return scaled < t
+	default:
+		return scaled <= t
+	}
 }
 
 // OrderDef is one order-by item.
@@ -135,6 +157,11 @@ func (q *QueryDef) statement(w *World) *stmt.Query {
 	}
 	for _, g := range q.GroupBy {
 		s.GroupBy = append(s.GroupBy, w.TagKeys[g])
+	}
+	if q.Having != nil {
+		op := map[int]stmt.BinaryOP{1: stmt.GREATER, 2: stmt.GREATEREQUAL, 3: stmt.LESS, 4: stmt.LESSEQUAL}[q.Having.Op]
+		s.Having = &stmt.BinaryExpr{Left: &stmt.FieldExpr{Name: q.Having.Field}, Operator: op,
+			Right: &stmt.NumberLiteral{Val: float64(q.Having.Thr) / ValueScale}}
 	}
 	for _, o := range q.OrderBy {
 		var e stmt.Expr = &stmt.FieldExpr{Name: o.Field}
